@@ -1,16 +1,42 @@
 From Coq Require Import ZArith List Bool Lia.
+From Flocq Require Import Core.Core IEEE754.BinarySingleNaN IEEE754.Binary IEEE754.Bits.
 Import ListNotations.
-Require Import SZV.Base.FloatOps SZV.Model.Quant SZV.Model.QuantFloat SZV.Proofs.Quant_proofs.
+Require Import SZV.Base.FloatOps SZV.Model.Quant SZV.Model.QuantFloat SZV.Proofs.Quant_proofs SZV.Proofs.FloatSym_proofs.
 Local Open Scope Z_scope.
 
-(* the float 1-D kernel emits a code only after its re-check passed *)
-Lemma fquant1_ok c h p x q r : fquant1 c h p x = Some (q, r) -> f_ok c x r = true.
+(* the float 1-D kernel emits a code only after its re-check passed, and never the code 0 *)
+Lemma fquant1_inv c h p x q r : fquant1 c h p x = Some (q, r) -> f_ok c x r = true /\ q <> 0.
 Proof.
   unfold fquant1. destruct (length h <? 2)%nat; [discriminate|].
   destruct (flt _ _); [|discriminate].
   destruct (fge (F x) (F p)).
-  - destruct (f_ok c x _) eqn:E; [|discriminate]. intro H. inversion H; subst. exact E.
-  - destruct (f_ok c x _) eqn:E; [|discriminate]. intro H. inversion H; subst. exact E.
+  - destruct (f_ok c x _) eqn:E; [|discriminate]. destruct (_ =? 0) eqn:Q; [discriminate|]. cbn [andb negb].
+    intro H. inversion H; subst. split; [exact E|]. apply Z.eqb_neq, Q.
+  - destruct (f_ok c x _) eqn:E; [|discriminate]. destruct (_ =? 0) eqn:Q; [discriminate|]. cbn [andb negb].
+    intro H. inversion H; subst. split; [exact E|]. apply Z.eqb_neq, Q.
+Qed.
+Lemma fquant1_ok c h p x q r : fquant1 c h p x = Some (q, r) -> f_ok c x r = true.
+Proof. intro H. apply (fquant1_inv _ _ _ _ _ _ H). Qed.
+Lemma fquant1_nonzero c h p x q r : fquant1 c h p x = Some (q, r) -> q <> 0.
+Proof. intro H. apply (fquant1_inv _ _ _ _ _ _ H). Qed.
+
+(* the decoder's pred + (float)(code - radius) * interval is the encoder's reconstruction bit for bit, for every input: above the
+   prediction the two expressions coincide; below it they are p - s*I and p + (-s)*I, equal by the symmetry of round-to-nearest-even
+   (FloatSym_proofs) unless s = 0 (then p = -0 gives -0 against +0) or the result is a NaN *)
+Lemma fquant1_mirror c h p x q r : fquant1 c h p x = Some (q, r) ->
+  Binary.is_nan 24 128 (F r) = false -> (q <> fradius c \/ fge (F x) (F p) = true) -> fdequant1 c p q = r.
+Proof.
+  unfold fquant1, fdequant1. destruct (length h <? 2)%nat; [discriminate|].
+  destruct (flt _ _); [|discriminate].
+  set (st := Z.shiftr _ 1).
+  destruct (fge (F x) (F p)) eqn:G.
+  - destruct (f_ok c x _ && _); [|discriminate]. intros H _ _. inversion H; subst.
+    replace (fradius c + st - fradius c) with st by lia. reflexivity.
+  - destruct (f_ok c x _ && _); [|discriminate]. intros H Hn [Hq|Hq]; [|discriminate]. inversion H; subst.
+    replace (fradius c - st - fradius c) with (- st) by lia.
+    assert (Hs : st <> 0) by (intro E; apply Hq; rewrite E; lia).
+    f_equal. symmetry. apply fmirror; [exact Hs|].
+    rewrite <- (TSFsym_F_Fb (fsub (F p) (fmul (f32_of_Z st) (finterval c)))). exact Hn.
 Qed.
 
 (* hence the "predicted elements within the bound" check holds on every input, statically *)
@@ -41,12 +67,84 @@ Proof.
   destruct (run_checks _ _ _ _ _ _ _ _ c h xs) as [[[a b] o] ex]. intro E. apply B; assumption.
 Qed.
 
+Lemma dle_not_dgt a b : dle a b = true -> dgt a b = false.
+Proof.
+  unfold dle, dgt, dlt. rewrite (Bcompare_swap 53 1024 a b) || idtac.
+  destruct (b64_compare a b) as [[| |]|] eqn:E; try discriminate; intros _;
+    unfold b64_compare in *; rewrite (Bcompare_swap _ _ a b), E; reflexivity.
+Qed.
+
+(* the double 1-D kernel (after the repair) emits a code only after its re-check passed, and never the code 0 *)
+Lemma dquant1_inv c h p x q r : dquant1 c h p x = Some (q, r) -> d_ok c x r = true /\ q <> 0.
+Proof.
+  unfold dquant1. destruct (length h <? 2)%nat; [discriminate|].
+  destruct (dlt _ _); [|discriminate].
+  destruct (dge (D x) (D p)).
+  - destruct (d_within c x _) eqn:E; [|discriminate]. destruct (_ =? 0) eqn:Q; [discriminate|]. cbn [andb negb].
+    intro H. inversion H; subst. split; [|apply Z.eqb_neq, Q].
+    unfold d_ok. rewrite TSFsym_D_Db. unfold d_within in E. rewrite (dle_not_dgt _ _ E). reflexivity.
+  - destruct (d_within c x _) eqn:E; [|discriminate]. destruct (_ =? 0) eqn:Q; [discriminate|]. cbn [andb negb].
+    intro H. inversion H; subst. split; [|apply Z.eqb_neq, Q].
+    unfold d_ok. rewrite TSFsym_D_Db. unfold d_within in E. rewrite (dle_not_dgt _ _ E). reflexivity.
+Qed.
+Lemma dquant1_ok c h p x q r : dquant1 c h p x = Some (q, r) -> d_ok c x r = true.
+Proof. intro H. apply (dquant1_inv _ _ _ _ _ _ H). Qed.
+Lemma dquant1_nonzero c h p x q r : dquant1 c h p x = Some (q, r) -> q <> 0.
+Proof. intro H. apply (dquant1_inv _ _ _ _ _ _ H). Qed.
+
+Lemma dquant1_mirror c h p x q r : dquant1 c h p x = Some (q, r) ->
+  Binary.is_nan 53 1024 (D r) = false -> (q <> dradius c \/ dge (D x) (D p) = true) -> ddequant1 c p q = r.
+Proof.
+  unfold dquant1, ddequant1. destruct (length h <? 2)%nat; [discriminate|].
+  destruct (dlt _ _); [|discriminate].
+  set (st := int_of_f64 _).
+  destruct (dge (D x) (D p)) eqn:G.
+  - destruct (d_within c x _ && _); [|discriminate]. intros H _ _. inversion H; subst.
+    replace (dradius c + st - dradius c) with st by lia. reflexivity.
+  - destruct (d_within c x _ && _); [|discriminate]. intros H Hn [Hq|Hq]; [|discriminate]. inversion H; subst.
+    replace (dradius c - st - dradius c) with (- st) by lia.
+    assert (Hs : st <> 0) by (intro E; apply Hq; rewrite E; lia).
+    f_equal. symmetry. apply dmirror; [exact Hs|].
+    rewrite <- (TSFsym_D_Db (dsub (D p) (dmul (f64_of_Z st) (dinterval c)))). exact Hn.
+Qed.
+
+Theorem dchecks1_okpred c : forall xs h, let '(_, _, o, _) := dchecks1 c h xs in o = true.
+Proof.
+  unfold dchecks1. induction xs as [|x xs IH]; intro h; cbn [run_checks]; [reflexivity|].
+  destruct (dquant1 c h (dpred1 c h) x) as [[q r]|] eqn:Q.
+  - specialize (IH (r :: h)). destruct (run_checks _ _ _ _ _ _ _ _ c (r :: h) xs) as [[[a b] o] ex].
+    rewrite (dquant1_ok _ _ _ _ _ _ Q). exact IH.
+  - specialize (IH (dexact c x :: h)). destruct (run_checks _ _ _ _ _ _ _ _ c (dexact c x :: h) xs) as [[[a b] o] ex]. exact IH.
+Qed.
+
 Theorem d1d_lockstep c xs h :
   let '(nz, mir, _, _) := dchecks1 c h xs in
   nz = true -> mir = true -> let '(qs, es, rs) := denc1 c h xs in ddec1 c h qs es = Some rs.
 Proof. exact (checked_lockstep Z dctx dpred1 dquant1 ddequant1 dexact Z.eqb d_ok zeqb_eq c xs h). Qed.
 
 Theorem d1d_bound c xs h :
-  let '(_, _, o, ex) := dchecks1 c h xs in
-  o = true -> ex = true -> let '(_, _, rs) := denc1 c h xs in Forall2 (fun x r => d_ok c x r = true) xs rs.
-Proof. exact (checked_bound Z dctx dpred1 dquant1 ddequant1 dexact Z.eqb d_ok c xs h). Qed.
+  let '(_, _, _, ex) := dchecks1 c h xs in
+  ex = true -> let '(_, _, rs) := denc1 c h xs in Forall2 (fun x r => d_ok c x r = true) xs rs.
+Proof.
+  pose proof (checked_bound Z dctx dpred1 dquant1 ddequant1 dexact Z.eqb d_ok c xs h) as B.
+  pose proof (dchecks1_okpred c xs h) as O. unfold dchecks1 in *.
+  destruct (run_checks _ _ _ _ _ _ _ _ c h xs) as [[[a b] o] ex]. intro E. apply B; assumption.
+Qed.
+
+(* the "code <> 0" check holds on every input, statically, for both kernels *)
+Theorem fchecks1_nz c : forall xs h, let '(nz, _, _, _) := fchecks1 c h xs in nz = true.
+Proof.
+  unfold fchecks1. induction xs as [|x xs IH]; intro h; cbn [run_checks]; [reflexivity|].
+  destruct (fquant1 c h (fpred1 c h) x) as [[q r]|] eqn:Q.
+  - specialize (IH (r :: h)). destruct (run_checks _ _ _ _ _ _ _ _ c (r :: h) xs) as [[[a b] o] ex].
+    pose proof (fquant1_nonzero _ _ _ _ _ _ Q) as N. apply Z.eqb_neq in N. rewrite N. exact IH.
+  - specialize (IH (fexact c x :: h)). destruct (run_checks _ _ _ _ _ _ _ _ c (fexact c x :: h) xs) as [[[a b] o] ex]. exact IH.
+Qed.
+Theorem dchecks1_nz c : forall xs h, let '(nz, _, _, _) := dchecks1 c h xs in nz = true.
+Proof.
+  unfold dchecks1. induction xs as [|x xs IH]; intro h; cbn [run_checks]; [reflexivity|].
+  destruct (dquant1 c h (dpred1 c h) x) as [[q r]|] eqn:Q.
+  - specialize (IH (r :: h)). destruct (run_checks _ _ _ _ _ _ _ _ c (r :: h) xs) as [[[a b] o] ex].
+    pose proof (dquant1_nonzero _ _ _ _ _ _ Q) as N. apply Z.eqb_neq in N. rewrite N. exact IH.
+  - specialize (IH (dexact c x :: h)). destruct (run_checks _ _ _ _ _ _ _ _ c (dexact c x :: h) xs) as [[[a b] o] ex]. exact IH.
+Qed.
